@@ -68,7 +68,9 @@ type spanT struct {
 type traceItem struct {
 	Span spanT `json:"span"`
 	// Repeat 0: exactly one location. -1: (calls of host tick) - 1 locations
-	// (frame-overflow template: one per active recursive call but the first).
+	// (frame-overflow template: one per active recursive call but the first);
+	// (calls of host tick) locations when the failure lies in the payload's
+	// Tick statement (the newest call had not been counted yet).
 	Repeat int `json:"repeat,omitempty"`
 }
 
@@ -95,7 +97,13 @@ type casePayload struct {
 	Main    string   `json:"main"`
 	Modules []modSrc `json:"modules,omitempty"`
 	// expectations
-	Fail     spanT       `json:"fail"`  // statement that must contain the first location
+	Fail spanT `json:"fail"` // statement that must contain the first location
+	// Tick: operand-stack overflow templates only. The recursing function
+	// starts with the statement that calls the host counter; when the newest
+	// call exhausts the operand stack already there (before the counter is
+	// incremented), that statement is the innermost one executing: the first
+	// location lies in Tick and the trace lists one location per counted call.
+	Tick     *spanT      `json:"tick,omitempty"`
 	Trace    []traceItem `json:"trace"` // statements of the active calls, innermost first
 	Kind     string      `json:"kind"`
 	MsgRe    string      `json:"msg_re"` // sanity: the intended operation is the one that failed
@@ -273,14 +281,28 @@ func (p *casePayload) verdict(o outcome) string {
 		return fmt.Sprintf("%s: a different operation failed: message %q does not match %s (first location %s)", o.api, clip(msg, 200), p.MsgRe, locs[0])
 	}
 	lt := p.tables()
+	inTick := false
 	if r := within(locs[0], p.Fail, lt); r != "" {
-		return fmt.Sprintf("%s: %s: failing statement is %s", o.api, r, describe(p.Fail, lt))
+		if p.Tick == nil || within(locs[0], *p.Tick, lt) != "" {
+			return fmt.Sprintf("%s: %s: failing statement is %s", o.api, r, describe(p.Fail, lt))
+		}
+		inTick = true // the newest recursive call failed before it was counted
+	}
+	if p.Tick != nil && o.api == "Run" {
+		if inTick {
+			ev.Class("operand-stack-overflow:in-counter-statement-of-newest-call")
+		} else {
+			ev.Class("operand-stack-overflow:in-recursing-statement")
+		}
 	}
 	var want []spanT
 	for _, it := range p.Trace {
 		n := 1
 		if it.Repeat == -1 {
 			n = o.ticks - 1
+			if inTick {
+				n = o.ticks
+			}
 			if n < 1 {
 				return fmt.Sprintf("%s: frame-overflow template made %d recursive calls", o.api, o.ticks)
 			}
